@@ -389,7 +389,7 @@ BIdle3 ==      \* clean up invalidated contexts, then invalidated loggers (and s
          \* (with a cache reload) for each of them, or taken from the check the poll made before (the variant the code must not be)
          pend == {l \in Loggers : lgPresent[l] /\ ~lgValid[l]}
          doLg == hasInval
-         c2 == IF doLg /\ RecheckOnRemove /\ pend # {} THEN Reload(c1) ELSE c1
+         c2 == IF doLg /\ RecheckOnRemove /\ pend # {} /\ newFlag THEN Without(ctxs, rem) ELSE c1   \* reload reads the registry after the removal above
          emptyNow == IF RecheckOnRemove THEN AllEmptyNow(c2) ELSE TRUE
          gone == IF doLg /\ emptyNow THEN pend ELSE {} IN
      /\ cache' = c2 /\ ctxs' = Without(ctxs, rem)
@@ -439,4 +439,6 @@ StateView == <<now, fpc, cur, nlog, nflush, need, flag, q, wpos, rpos, rpub, fai
                cache, ring, bpc, bi, tsNow, batchMode, lastIdle, flushWho, written, flushedTo, rmWait, rmDone, lgValid, lgPresent, hasInval, acc,
                nid, dropped, reported, anyLate, bad>>
 ExportA == Export => PrintT("BEH " \o ToJson(hist'))
+\* simulation mode: one behaviour per simulated trace, printed when the trace reaches level 60 (tlc -simulate -depth 62)
+ExportSim == (Export /\ TLCGet("level") = 60) => PrintT("BEH " \o ToJson(hist'))
 =============================================================================
